@@ -2,9 +2,18 @@
    against whatever periodscript.lua / tokenscript.lua say in the tree today. *)
 From Coq Require Import List ZArith String QArith Bool Lia.
 From GZ Require Import Lib.RedisStore Lib.RedisStoreFacts.
-From GZgen Require Lua_period Lua_token.
+From GZgen Require Lua_period Lua_token C03Consts.
 Import ListNotations.
 Open Scope Z_scope.
+
+(* tokenlimit.go today: the in-process rescue limiter is built with the exact rate
+   (xrate.Limit(rate), repair 9e9cefb), not from the truncated interval time.Second/rate; the
+   monitor pings every 100 ms *)
+Lemma rescue_exact_today : C03Consts.gen_rescue_exact = true.
+Proof. reflexivity. Qed.
+
+Lemma ping_interval_today : C03Consts.gen_pingInterval_ns = 100000000.
+Proof. reflexivity. Qed.
 
 (* the integer the period script returns for the [c]-th request against [q] *)
 Definition period_code (c q : Z) : Z := if c <? q then 1 else if c =? q then 2 else 0.
